@@ -3,6 +3,7 @@ package main
 // C10 - Flush makes everything written so far decodable: block framing rules R10.1 - R10.6.
 
 import (
+	"strings"
 	"go/token"
 	"go/types"
 
@@ -380,9 +381,22 @@ func ruleR10_3(p *Program, r *Report) {
 		}
 		recv := fn.Params[0]
 		key := shortFn(fn)
-		isEncode := func(in ssa.Instruction) bool {
+		// handOver: a call to a method of the same receiver that does nothing but hand buf.output[:buf.idx] to the
+		// destination (the Write extracted into a helper): it is the write, not an encode step
+		handOver := func(in ssa.Instruction) bool {
 			c, ok := in.(ssa.CallInstruction)
 			if !ok {
+				return false
+			}
+			h := c.Common().StaticCallee()
+			if h == nil || h.Blocks == nil || h.Signature.Recv() == nil || len(c.Common().Args) == 0 || c.Common().Args[0] != ssa.Value(recv) {
+				return false
+			}
+			return isPureHandOver(h)
+		}
+		isEncode := func(in ssa.Instruction) bool {
+			c, ok := in.(ssa.CallInstruction)
+			if !ok || handOver(in) {
 				return false
 			}
 			f := c.Common().StaticCallee()
@@ -429,6 +443,9 @@ func ruleR10_3(p *Program, r *Report) {
 		isMarker := func(in ssa.Instruction) bool { return directMarker(in) || tailHelper(in) }
 		isWrite = func(in ssa.Instruction) bool {
 			if tailHelper != nil && in.Parent() == fn && tailHelper(in) {
+				return true
+			}
+			if in.Parent() == fn && handOver(in) {
 				return true
 			}
 			c, ok := in.(ssa.CallInstruction)
@@ -633,10 +650,41 @@ func ruleR10_5(p *Program, r *Report) {
 				}
 			}
 		}
+		// the whole marker writer may be a helper shared by the two block kinds, taking the 3 header bits as a parameter
+		bind := map[ssa.Value]ssa.Value{}
+		if hdrCall == nil && align == nil {
+			for _, c := range allCalls(fn) {
+				g := c.Common().StaticCallee()
+				if g == nil || g.Blocks == nil || g.Signature.Recv() == nil || len(c.Common().Args) == 0 || c.Common().Args[0] != ssa.Value(fn.Params[0]) {
+					continue
+				}
+				var gh, ga ssa.CallInstruction
+				for _, gc := range allCalls(g) {
+					if staticCalleeNamed(gc, deflRel, "BitBuf", "WriteBit") {
+						gh = gc
+					}
+					if staticCalleeNamed(gc, deflRel, "BitBuf", "flushLastByte") {
+						ga = gc
+					}
+				}
+				if gh != nil && ga != nil && dominatesInstr(gh, ga) {
+					body, hdrCall, align = g, gh, ga
+					for i, prm := range g.Params {
+						if i < len(c.Common().Args) {
+							bind[prm] = c.Common().Args[i]
+						}
+					}
+				}
+			}
+		}
 		if hdrCall == nil || align == nil || (body == fn && !dominatesInstr(hdrCall, align)) {
 			why = "header write followed by alignment not found"
 		} else {
-			v, ok1 := constInt(hdrCall.Common().Args[1])
+			hv := stripConv(hdrCall.Common().Args[1])
+			if a, ok := bind[hv]; ok {
+				hv = a
+			}
+			v, ok1 := constInt(hv)
 			w, ok2 := constInt(hdrCall.Common().Args[2])
 			if !ok1 || !ok2 || v != t.hdr || w != 3 {
 				why = "block header is not WriteBit(" + itoa(int(t.hdr)) + ", 3)"
@@ -815,6 +863,9 @@ func ruleR10_6(p *Program, r *Report) {
 				}
 				j := find(g, 0)
 				ok := j >= 0 && assertedTrue(dominatingFacts(c), g.Params[j])
+				if !ok && g == tr.Ops["Close"] {
+					ok = true // written by Close itself: Close is what ends the stream
+				}
 				r.Check(ok, "R10.6", shortFn(g)+"|final empty block under final flag", p.InstrPos(c), "the empty final stored block is written only when the final flag is set", "writeFinalEmptyBlock is not dominated by the final flag being true: a Flush or Compress could terminate the stream")
 			}
 		}
@@ -928,4 +979,33 @@ func ruleR10_7(p *Program, r *Report) {
 	if n == 0 {
 		r.Undecided("R10.7", "anchor", "-", "a block function that runs the match finder with a flush parameter", "not found")
 	}
+}
+
+// isPureHandOver: h's only call hands <receiver>.buf.output[:<receiver>.buf.idx] to the destination.
+func isPureHandOver(h *ssa.Function) bool {
+	calls := allCalls(h)
+	n := 0
+	for _, c := range calls {
+		if _, isB := c.Common().Value.(*ssa.Builtin); isB {
+			continue
+		}
+		n++
+		if d, _ := dstDirect(callInfo(c)); !d {
+			return false
+		}
+		args := c.Common().Args
+		if len(args) == 0 {
+			return false
+		}
+		sl, ok := args[len(args)-1].(*ssa.Slice)
+		if !ok || sl.Low != nil || sl.High == nil {
+			return false
+		}
+		rootX, selX := accessPath(sl.X)
+		_, selH, okH := fieldLoad(sl.High)
+		if !okH || rootX != ssa.Value(h.Params[0]) || !strings.HasSuffix(selX, ".output") || !strings.HasSuffix(selH, ".idx") {
+			return false
+		}
+	}
+	return n == 1
 }
